@@ -16,7 +16,7 @@ func init() {
 			"is a branch to a panic or error exit that lies on every path to a normal return, against the documented constant (evaluated from the initialisers); the square roots apply the +1 correction exactly when r² < d, in both precisions; the rounding-mode dispatch of DivIntByU64ToBigDec selects the matching division; SigFigRound does not write its argument.",
 		NotCovered:  []string{"every numeric error bound (Exp2 10^-18, LogBase2 10^-32, Pow precision, sig-fig half-unit)", "monotonicity of the square roots", "binary-search post-conditions"},
 		Assumptions: []string{"math/big.Int.Sqrt returns the floor square root"},
-		MinObl:      78,
+		MinObl:      83,
 		Run:         runC13,
 	})
 }
@@ -59,6 +59,9 @@ func runC13(c *rules.Ctx) {
 	c.CallArg(M+"SigFigRound", "sdkmath.LegacyDec.QuoIntMut", 0, "sdkmath.Int.ToLegacyDec(sdkmath.LegacyDec.RoundInt(sdkmath.LegacyDec.MulInt(_, tenToSigFig)))", "the numerator is the scaled value rounded to the nearest integer (half-even), so the result moves by at most half a unit of the last kept digit")
 	c.CallArg(M+"SigFigRound", "sdkmath.LegacyDec.QuoIntMut", 1, "sdkmath.Int.Mul(tenToSigFig, sdkmath.LegacyDec.TruncateInt(sdkmath.LegacyDec.Power(sdkmath.Int.ToLegacyDec(sdkmath.NewInt(10)), _)))", "…and is scaled back by 10^sigfig · 10^k")
 	c.HasCall(M+"SigFigRound", "sdkmath.LegacyDec.RoundInt", []string{"sdkmath.LegacyDec.MulInt(_, tenToSigFig)"}, false, "d·10^k·10^sigfig is rounded half-even to an integer", "")
+	c.HasCall(M+"PowApprox", "sdkmath.LegacyDec.ApproxSqrt", []string{"originalBase"}, false, "the square-root shortcut for exponent one half is taken of the base as given", "sqrt")
+	c.OnlyWhen(M+"PowApprox", "sdkmath.LegacyDec.ApproxSqrt", "sdkmath.LegacyDec.Equal(exp, @osmomath.one_half)", "…and only for exactly one half")
+	c.NeverAfter(M+"PowApprox", "osmomath.AbsDifferenceWithSign", "sdkmath.LegacyDec.ApproxSqrt", "the shortcut is decided before the series set-up consumes (and overwrites) its working copy of the base")
 	// square roots
 	for _, v := range [][3]string{{"MonotonicSqrtMut", "sdkmath.LegacyDec", "@osmomath.tenTo18"}, {"MonotonicSqrtBigDecMut", "osmomath.BigDec", "@osmomath.tenTo36"}} {
 		fn, ty, ten := M+v[0], v[1], v[2]
